@@ -54,5 +54,8 @@ for name, entry, stubs, what, uf, defs in K:
         allow_alloc_cut=True, fill_bound=12, diff=False, timeout=(900 if name.startswith('rans_') else None), backend=('kissat' if name == 'texcoords_pred' else 'minisat'),
         bound='current kernel == kernel frozen at the pinned revision, for all inputs of the kernel harness (10 symbolic stream bytes / all integer arguments)',
         covers=what))
+OBLIGATIONS.append(Ob('C05.version_gate', 'C05/header.cc', 'h_header', tier='quick', unwind=14, unwindset=['strlen.0:64', 'memcmp.0:8'], defines={'_GLIBCXX_ASSERTIONS': 1}, max_alloc=64, fill_bound=14,
+    bound='12 symbolic header bytes with symbolic length, mesh and point-cloud decoder, any previous buffer version; metadata flag clear',
+    covers='PointCloudDecoder::Decode / DecodeHeader: magic, geometry type check, version gate (UNKNOWN_VERSION), DecoderBuffer::set_bitstream_version; Status'))
 META = {'level': 'translation_validation',
         'explanation': 'each kernel of the current tree is proved observationally equal to its frozen translation (same translator) for all inputs in the bound'}
